@@ -4,7 +4,7 @@
    Not proved (trusted mathematics): that every canonical star graph of type B1/B2/B3 generates
    sp/so/su of the stated size, and that equal invariants imply isomorphism (arXiv:2408.00081).
    The implementation's answer is compared with the invariants of the verified closure per input. *)
-From PauLie Require Import Pauli Sym ClT ClosureN ClosureT Star StarT.
+From PauLie Require Import Pauli Sym ClT ClSym PathT ClosureN ClosureT Star StarT.
 
 Theorem C01_closure_oracle_exact : forall n G L, closure_strs n G = Some L ->
   forall p, length p = n -> (In p L <-> Cl P mul anti (fun a => In a (map enc G)) (enc p)).
@@ -31,3 +31,11 @@ Theorem C01_star_of_single_legs : forall k, (1 <= k)%nat ->
   algprops (1%nat :: repeat 1%nat k) = COk (ASO, Z.of_nat k, 3%Z).
 Proof. exact star_of_single_legs. Qed.
 Print Assumptions C01_star_of_single_legs.
+
+(* type A with one leg, for EVERY length: if the anticommutation graph of g_0 .. g_{m-1} is a path, the closure is
+   exactly the set of products of contiguous segments g_i g_{i+1} ... g_{i+d} (the E_ij of so(m+1)) *)
+Theorem C01_path_closure : forall (m : nat) (g : nat -> P),
+  (forall i j, (i < m)%nat -> (j < m)%nat -> anti (g i) (g j) = adj i j) ->
+  forall p, ClS (PathT.G P m g) p <-> IsSeg P mul m g p.
+Proof. exact s_path_closure. Qed.
+Print Assumptions C01_path_closure.
